@@ -9324,6 +9324,9 @@ class SVG(Group):
                     and SVG_ATTR_DISPLAY in values
                     and values[SVG_ATTR_DISPLAY].lower() == SVG_VALUE_NONE
                 ):
+                    if root is None and SVG_NAME_TAG == tag:
+                        # The outermost svg itself: nothing of the document is rendered, it is still a document.
+                        return SVG()
                     continue  # If the attributes flag our values to display=none, stop rendering.
                 try:
                     if SVG_NAME_TAG == tag:
